@@ -3,13 +3,14 @@
 Seam      django_components.util.template_parser.parse_template(src) (the function the
           patched Template.compile_nodelist feeds to Django's Parser) and, part B, the
           public route Template(src) with a debug and a non-debug engine.
-Alphabet  29 source fragments (FRAGMENT_NAMES): text, newline, {{ }}, {# #}, {% %} tags with
+Alphabet  32 source fragments (FRAGMENT_NAMES): text, newline, {{ }}, {# #}, {% %} tags with
           0..2 quoted strings (both quote kinds, escaped quote, string ending in an escaped
           backslash `"q\\\\"` / `'q\\\\'` - closing quote after an even run of backslashes -,
           embedded `%}` / `}}` / newline), a multi-line tag, verbatim openers / closers (plain,
           named, quoted name after a space / a tab / a newline - stock Django enters verbatim
           mode only for contents[:9] in ("verbatim", "verbatim "), so only the space form
-          does), unterminated constructs.  The fragments are uniquely decodable, so fragment
+          does), a multi-line tag whose only quotes sit on a continuation line with `%}` inside the
+          string, a lone `%` directly before the closing `%}` / before a quote, unterminated constructs.  The fragments are uniquely decodable, so fragment
           sequences are distinct sources.
 Bound     every sequence of <= L fragments (quick L=4 lexer + L=3 public route; thorough
           L=5 + L=4) plus every sequence of exactly L+1 fragments over the 11-fragment
@@ -29,7 +30,9 @@ Oracle    (1) spans contiguous from 0 to len(src), non-empty;
               process CPU timer, so that a loaded machine cannot fake a hang), is a violation.
           The reference is itself validated against stock on every quote-free source
           (disagreement = harness error, exit 2).
-          Part B: Template(src + '{% bogus %}') must fail exactly like Django's Parser run on
+          Part B: Template(src) and Template(src + '{% bogus %}'): the token stream handed to
+          django.template.base.Parser (recorded by a harness-side wrapper of Parser.__init__) must be
+          the reference stream, and the compile must end exactly like Django's Parser run on
           the reference tokens: same exception class, same message ("... on line N ..."), same
           failing token (contents, position, lineno) and, debug engine, the same template_debug
           dict.  The class is TemplateSyntaxError except where a stock compile function itself
@@ -77,6 +80,7 @@ FRAGMENT_NAMES = [
     "TAG_DQ_CLOSE_NL_INSIDE", "VERBATIM_DQ", "ENDVERBATIM_DQ", "TAG_SQ_CLOSE_INSIDE",
     "TAG_DQ_ENDS_ESC_BACKSLASH", "TAG_SQ_ENDS_ESC_BACKSLASH",
     "VERBATIM_TAB_DQ", "VERBATIM_NL_DQ", "ENDVERBATIM_TAB_DQ", "ENDVERBATIM_NL_DQ",
+    "TAG_NL_DQ_CLOSE_INSIDE", "TAG_DQ_PERCENT_CLOSE", "TAG_PERCENT_DQ",
 ]
 # every sequence of exactly L+1 fragments over this sub-alphabet is added to the full enumeration <= L
 DEEP = ["T", "NL", "VAR", "TAG", "TAG_DQ", "TAG_DQ_CLOSE_INSIDE", "TAG_MULTILINE_DQ", "TAG_DQ_CLOSE_NL_INSIDE", "VERBATIM", "ENDVERBATIM", "TAG_DQ_OPEN"]
@@ -117,6 +121,11 @@ def alphabet(seed: int):
         '{%% verbatim\n"%s" %%}' % q,
         '{%% endverbatim\t"%s" %%}' % q,
         '{%% endverbatim\n"%s" %%}' % q,
+        # multi-line tag whose only quotes sit on a continuation line, with `%%}` inside the string
+        '{%% %s\n"%s%%}%s"\n%%}' % (a, q, r),
+        # a lone `%%` directly followed by the closing `%%}` / by a quote, inside a tag that has a quoted string
+        '{%% %s "%s" %s%%%%}' % (a, q, r),
+        '{%% %s %s%%"%s" %%}' % (a, r, q),
     ]
     assert len(A) == len(FRAGMENT_NAMES)
     return A
@@ -381,6 +390,27 @@ def _engines(tag_name: str):
     return _ENGINES
 
 
+_SPY = {"installed": False, "log": []}
+
+
+def _install_parser_spy():
+    """Records the token stream every django.template.base.Parser is constructed with (a snapshot: tag
+    functions rewrite token.contents later).  Harness-side observation only; the class object stays the same."""
+    if _SPY["installed"]:
+        return
+    from django.template.base import Parser
+
+    orig = Parser.__init__
+
+    def __init__(self, tokens, *a, **kw):
+        tokens = list(tokens)
+        _SPY["log"].append(_tup(tokens))
+        orig(self, tokens, *a, **kw)
+
+    Parser.__init__ = __init__
+    _SPY["installed"] = True
+
+
 def _exc_kind(e):
     from django.template.exceptions import TemplateSyntaxError
 
@@ -421,8 +451,10 @@ def route_case(src: str, dotall: bool, tag_name: str):
             info["cls"] = "stock-raises-" + exp[0]
     else:
         info["cls"] = "agnostic"
+    _install_parser_spy()
     for dbg_flag in (True, False):
         _arm()
+        del _SPY["log"][:]
         try:
             Template(src, engine=engines[dbg_flag])
             got = ("ok",)
@@ -440,6 +472,11 @@ def route_case(src: str, dotall: bool, tag_name: str):
         info["obs"] = got[:3]
         if agnostic:
             continue
+        # the stream the public route hands to Django's Parser (first Parser built by this Template() call)
+        handed = _SPY["log"][0] if _SPY["log"] else None
+        if handed != ref:
+            return ("route-stream", f"Template(src) (debug={dbg_flag}) handed Django's Parser a stream that differs from the reference: "
+                                    f"{_diff(handed or [], ref)}"), info
         if got[0] != exp[0]:
             return ("route-outcome", f"Template(src) (debug={dbg_flag}) gave {got[:2]}, Django's Parser on the reference tokens gives {exp[:2]}"), info
         if got[0] == "ok":
@@ -512,34 +549,33 @@ def _worker(w, W, payload):
             pre = part + ":"
             for sq in _sequences(len(idxs), lo, hi, w, W):
                 seq = tuple([idxs[i] for i in sq])
-                src = "".join([A[i] for i in seq])
+                src0 = "".join([A[i] for i in seq])
                 agg.extra[pre + "states"] += 1
-                if kind == "route":
-                    src += bogus
-                for dotall in ((True, False) if "\n" in src else (True,)):
-                    set_mode(dotall)
-                    if kind == "lex":
-                        problem, info = lex_case(src, dotall)
-                        agg.extra[pre + "transitions"] += 1
-                        agg.extra[pre + "cls:" + info["cls"]] += 1
-                        if info["ext"] >= 1 and dotall:
-                            agg.extra[pre + "nontrivial"] += 1
-                        if info["ext"] >= 2:
-                            agg.extra[pre + "two_or_more_quoted_tags"] += 1
-                        if not problem and info["cls"] == "kept-close":
-                            agg.sample({"src": src, "multiline_tags": dotall, "tokens": [list(t) for t in info["obs"]][:6]}, limit=1)
-                    else:
-                        problem, info = route_case(src, dotall, tag_name)
-                        agg.extra[pre + "transitions"] += 2
-                        agg.extra[pre + "cls:" + info["cls"]] += 1
-                        if info["cls"] not in ("agnostic", "ok") and not info["cls"].startswith("stock-raises-") and dotall:
-                            agg.extra[pre + "nontrivial"] += 1
-                    if info["obs"] is not None:
-                        agg.observed.add((part, hash(repr(info["obs"])) & 0xFFFFFFFFFFFF))
-                    if problem:
-                        note(kind, problem[0], problem[1], src, seq, dotall)
-                        if problem[0] in ("hang", "route-hang"):
-                            hangs += 1
+                for src in ((src0 + bogus, src0) if kind == "route" else (src0,)):
+                    for dotall in ((True, False) if "\n" in src else (True,)):
+                        set_mode(dotall)
+                        if kind == "lex":
+                            problem, info = lex_case(src, dotall)
+                            agg.extra[pre + "transitions"] += 1
+                            agg.extra[pre + "cls:" + info["cls"]] += 1
+                            if info["ext"] >= 1 and dotall:
+                                agg.extra[pre + "nontrivial"] += 1
+                            if info["ext"] >= 2:
+                                agg.extra[pre + "two_or_more_quoted_tags"] += 1
+                            if not problem and info["cls"] == "kept-close":
+                                agg.sample({"src": src, "multiline_tags": dotall, "tokens": [list(t) for t in info["obs"]][:6]}, limit=1)
+                        else:
+                            problem, info = route_case(src, dotall, tag_name)
+                            agg.extra[pre + "transitions"] += 2
+                            agg.extra[pre + "cls:" + info["cls"]] += 1
+                            if info["cls"] not in ("agnostic", "ok") and not info["cls"].startswith("stock-raises-") and dotall:
+                                agg.extra[pre + "nontrivial"] += 1
+                        if info["obs"] is not None:
+                            agg.observed.add((part, hash(repr(info["obs"])) & 0xFFFFFFFFFFFF))
+                        if problem:
+                            note(kind, problem[0], problem[1], src, seq, dotall)
+                            if problem[0] in ("hang", "route-hang"):
+                                hangs += 1
                 if hangs >= MAX_HANGS:  # every further case may cost HANG_SECONDS: stop, the run is a violation anyway
                     agg.caps.append(f"worker {w} stopped after {hangs} hangs")
                     break
@@ -596,7 +632,8 @@ def run(ctx):
             extra = {"runs_with_two_or_more_quoted_tags": agg.extra[pre + "two_or_more_quoted_tags"]}
             samples = agg.samples[:2] if part == "lexer" else None
         else:
-            bound.update({"suffix": "{% bogus %}", "engines": ["debug", "non-debug"]})
+            bound.update({"suffixes": ["{% bogus %}", ""], "engines": ["debug", "non-debug"],
+                          "observed": "token stream handed to django.template.base.Parser + compile outcome"})
             samples = [{"src": A[7] + A[1] + A[8] + "{% bogus %}", "expect": "Invalid block tag on line 2: 'bogus'"}]
         ev.add_part(
             part, states=agg.extra[pre + "states"], transitions=agg.extra[pre + "transitions"], validated=agg.extra[pre + "transitions"],
